@@ -363,6 +363,7 @@ func (x *workPullingProducerController) handleRequest(ctx *ReceiveContext, reque
 		request.RequestUpToSeq() < request.ConfirmedSeq() ||
 		request.RequestUpToSeq() > request.ConfirmedSeq()+MaxReliableFlowControlWindow {
 		ctx.Logger().Warnf("work-pulling producer controller for endpoint=%s ended worker=%s after illegal demand range [%d, %d] at seq=%d", x.producer.Name(), binding.endpointName, request.ConfirmedSeq(), request.RequestUpToSeq(), binding.currentSeq)
+		verifhook.At("reliable.workpulling.illegal", x, request.ConfirmedSeq(), request.RequestUpToSeq())
 		x.endBinding(ctx, binding.endpointName, "illegal demand range")
 		x.progress(ctx)
 		return
@@ -388,6 +389,7 @@ func (x *workPullingProducerController) handleAck(ctx *ReceiveContext, ack *comm
 
 	if ack.ConfirmedSeq() < 0 || ack.ConfirmedSeq() > binding.currentSeq {
 		ctx.Logger().Warnf("work-pulling producer controller for endpoint=%s ended worker=%s after illegal confirmation %d at seq=%d", x.producer.Name(), binding.endpointName, ack.ConfirmedSeq(), binding.currentSeq)
+		verifhook.At("reliable.workpulling.illegal", x, ack.ConfirmedSeq(), 0)
 		x.endBinding(ctx, binding.endpointName, "illegal confirmation")
 		x.progress(ctx)
 		return
